@@ -41,6 +41,8 @@ def gen_cases(tier, seed):
                 cases.append({"kind": "zoo", "cfg": cfg, "policy": pol, "seed": env.subseed(seed, "c02", fam, ci, pol),
                               "world": world, "batch": 5 if tier == "quick" else 8,
                               "cost": 8 if "umnn" in fam else (3 if len(cfg.get("shape", [1])) == 3 else 1)})
+                if cfg.get("cache") and pol not in ("zero", "extreme") and fam != "conv1x1x":
+                    cases.append(dict(cases[-1], order="inverse_first"))
     nb = 4 if tier == "quick" else 16
     for fam in ("linear", "quadratic", "cubic", "rq"):
         for bi, bx in enumerate(splineref.BOXES):
@@ -114,10 +116,16 @@ def run_case(case):
             return None
 
     r.ev()
-    fw = call(model.forward, x, "forward")
-    if fw is None:
-        return r.done()
-    y, lad_f = fw
+    inverse_first = case.get("order") == "inverse_first"
+    if inverse_first:
+        # cache on: the very first call on the (empty) cache is an inverse
+        y = zoo.sample_inputs(me, B, case["seed"] + 5, structured=False, dom=me["dom_out"])
+        lad_f = torch.zeros(B)
+    else:
+        fw = call(model.forward, x, "forward")
+        if fw is None:
+            return r.done()
+        y, lad_f = fw
     # forward results a hair (< 1% of the round-trip tolerance) outside a closed output interval are put back on
     # the end-point ("to floating-point accuracy"); C09 owns the never-leaves-the-interval clause
     if me["dom_out"][0] == "box" and torch.isfinite(y).all():
@@ -127,11 +135,11 @@ def run_case(case):
         if over.any():
             r.count("ulp_overshoot_clamped", int(over.sum()))
             y = torch.where(over, y.clamp(lo_, hi_), y)
-    ys = [("from_x", x, y)]
+    ys = [("from_x", x, y)] if not inverse_first else [("direct_y", None, y)]
     # directly sampled in-range y (non-composite families: the range is the declared output domain)
     # (not for LogTanh / UMNN: their floating-point range is far smaller than the declared output domain -
     #  y beyond alpha*log(beta*float_max), resp. beyond the image of the declared bisection interval [-20, 20])
-    if not (me["tags"] & {"composite", "multiscale", "flattens", "reshapes", "umnn"}) and fam != "logtanh" \
+    if not inverse_first and not (me["tags"] & {"composite", "multiscale", "flattens", "reshapes", "umnn"}) and fam != "logtanh" \
             and cfg.get("inner", {}).get("fam") != "logtanh" and me["dom_out"][0] in ("R", "box"):
         m2 = dict(me)
         m2["shape"] = list(y.shape[1:])
